@@ -36,6 +36,10 @@ func (n1 jsonNumber) Equals(node JsonNode, metadata ...Metadata) bool {
 func (n jsonNumber) hashCode(metadata []Metadata) [8]byte {
 	a := make([]byte, 0, 8)
 	b := bytes.NewBuffer(a)
+	if n == 0 {
+		// Negative zero equals zero so they must share a hash code.
+		n = 0
+	}
 	binary.Write(b, binary.LittleEndian, n)
 	return hash(b.Bytes())
 }
